@@ -9,7 +9,10 @@
 
 use std::cell::RefCell;
 
-use tokio::sync::broadcast::error::{RecvError, TryRecvError};
+use tokio::sync::broadcast::{
+    error::{RecvError, TryRecvError},
+    Receiver,
+};
 
 /// What a receive operation answered.
 #[derive(Clone, Copy, Debug, PartialEq, Eq, Hash)]
@@ -58,7 +61,32 @@ pub(crate) fn after_recv<T>(result: &Result<T, RecvError>) {
     });
 }
 
-pub(crate) fn after_try_recv<T>(result: &Result<T, TryRecvError>) {
+/// A `Receiver` whose `try_recv` reports to the hook. Shadows the receiver in
+/// the drain loops, so that the loops themselves stay as they are.
+pub(crate) struct HookedReceiver<'a, T>(pub(crate) &'a mut Receiver<T>);
+
+impl<T: Clone> HookedReceiver<'_, T> {
+    pub(crate) fn try_recv(&mut self) -> Result<T, TryRecvError> {
+        let received = self.0.try_recv();
+        after_try_recv(&received);
+        received
+    }
+}
+
+impl<T> std::ops::Deref for HookedReceiver<'_, T> {
+    type Target = Receiver<T>;
+    fn deref(&self) -> &Receiver<T> {
+        self.0
+    }
+}
+
+impl<T> std::ops::DerefMut for HookedReceiver<'_, T> {
+    fn deref_mut(&mut self) -> &mut Receiver<T> {
+        self.0
+    }
+}
+
+fn after_try_recv<T>(result: &Result<T, TryRecvError>) {
     call(match result {
         Ok(_) => RecvKind::Ok,
         Err(TryRecvError::Empty) => RecvKind::Empty,
